@@ -13,6 +13,7 @@ import (
 	"math"
 	"strconv"
 	"sync"
+	"sync/atomic"
 	"time"
 
 	"github.com/hashicorp/go-multierror"
@@ -272,7 +273,7 @@ func (tdsChan *Channel) handleSpecialPackage(pkg Package) (bool, error) {
 				if packSize <= PacketHeaderSize || packSize > math.MaxUint16 {
 					return false, fmt.Errorf("invalid new packet size %d", packSize)
 				}
-				tdsChan.tdsConn.packetSize = packSize
+				atomic.StoreInt64(&tdsChan.tdsConn.packetSize, int64(packSize))
 			}
 
 			tdsChan.callEnvChangeHooks(member.Type, member.OldValue, member.NewValue)
